@@ -114,6 +114,7 @@ Inductive c16case :=
        (value : cinput) (data : pv) (oracle : list (bytes * res pv)) (r : recorded) (e : res unit)
 | FGuessKey (ka : keyarg) (h : pv) (e : res N)
 | FGuessSender (sa : senderarg) (h : pv) (e : res N)
+| FUnpad (data : bytes) (e : res bytes)
 | CContract (name : string) (e : exn)
 | CGuards.
 
@@ -198,6 +199,7 @@ Definition c16_check (c : c16case) : bool :=
       | Ok (Some k), Ok i => (match k_kid k with PStr s => lenN s | _ => 0 end) =? i
       | Ok None, Ok i => i =? 999
       | Err a, Err b => exn_eqb a b | _, _ => false end
+  | FUnpad data e => res_eqb beqb (pkcs7_unpad data) e
   | CContract name e => existsb (exn_eqb e) (classes_of name)
   | CGuards =>
       needs_jws_compact G && needs_7797_compact G && needs_jws_json G && needs_7797_json G &&
